@@ -56,6 +56,12 @@ def shlCarryLoop (w bs : Nat) : List Nat → Nat → List Nat × Nat
 def shrCarryLoop (w bs : Nat) : List Nat → Nat → List Nat
   | [], _ => []
   | d :: ds, carry => (dshr d bs ||| carry) :: shrCarryLoop w bs ds (dshl w d (w - bs))
+/-- `digits[i] |= v` on the first element of a list (`out.digits[0] |= carry` in
+    `unchecked_rotate_left`; `out.digits[num_copies - 1] |= MAX << carry_shift` on the
+    most-significant-first list in `unchecked_shr_pad_internal`) -/
+def orHead (v : Nat) : List Nat → List Nat
+  | [] => []
+  | d :: t => (d ||| v) :: t
 end Shift
 
 open Shift
@@ -76,9 +82,7 @@ def uncheckedRotateLeft (w : Nat) (a : List Nat) (s : Nat) : List Nat :=
   if bs != 0 then
     let r := shlCarryLoop w bs out 0
     -- `out.digits[0] |= carry`
-    match r.1 with
-    | [] => []
-    | d :: t => (d ||| r.2) :: t
+    orHead r.2 r.1
   else out
 
 /-- `rotate_left(n)`: `unchecked_rotate_left(n & BITS_MINUS_1)`  — DEFECT for non-power-of-two BITS -/
@@ -116,11 +120,8 @@ def uncheckedShrPadInternal (w : Nat) (neg : Bool) (a : List Nat) (s : Nat) : Li
     let cs := w - bs
     -- most significant first: `r[0]` is `out.digits[num_copies - 1]`
     let r := shrCarryLoop w bs (a.drop ds).reverse 0
-    let r := if neg then
-        (match r with
-         | [] => []
-         | d :: t => (d ||| dshl w (B w - 1) cs) :: t)
-      else r
+    -- `if NEG { out.digits[num_copies - 1] |= Digit::MAX << carry_shift }`
+    let r := if neg then orHead (dshl w (B w - 1) cs) r else r
     r.reverse ++ List.replicate (min ds n) pad
   else
     a.drop ds ++ List.replicate (min ds n) pad
